@@ -43,6 +43,8 @@ PATHS = ["replace", "copy", "plainCtor", "classCtor"]
 # what a path does to the grid slot: `replace` and `copy(deep=False)` both re-attach `self.uxgrid`
 PATH_CLASS = {"replace": "re-attach", "copy": "re-attach", "plainCtor": "plain", "classCtor": "no-grid"}
 REMAP_TO = {"nodes": "n_node", "edge centers": "n_edge", "face centers": "n_face"}
+ELEMENT_DIM = dict(REMAP_TO)   # the `element=` keyword of the subset accessors uses the same three names
+AGG_NAMES = ["mean", "max", "min", "prod", "sum", "std", "var", "median", "all", "any"]   # order of UxdaAlgebra.Agg
 
 
 def dim_code(name):
@@ -100,6 +102,7 @@ class Tracer:
     def __init__(self, ux, xr):
         self.ux, self.xr = ux, xr
         self.events = []
+        self.callers = set()     # names of the functions that constructed a UxDataArray while tracing
         self.active = False
         cls = ux.UxDataArray
         tr = self
@@ -115,6 +118,7 @@ class Tracer:
         def _replace(self, *a, **k):
             r = o_replace(self, *a, **k)
             if tr.active:
+                tr.callers.add("_replace")
                 tr.events.append(("replace", r, None))
             return r
 
@@ -132,7 +136,9 @@ class Tracer:
 
         def ux_init(self, *a, **k):
             if tr.active:
-                tr.events.append(("ux_init", self, tr.caller()))
+                who = tr.caller()
+                tr.callers.add(who[1])
+                tr.events.append(("ux_init", self, who))
             return o_init(self, *a, **k)
 
         def xr_init(self, *a, **k):
@@ -482,13 +488,32 @@ def resolve_idx(desc, u):
     return idx
 
 
+def subset_call(desc, g, target):
+    """the selection a `ux_subset` descriptor stands for, called on `target` (the UxDataArray, or the Grid itself to find
+    out whether the SELECTION is defined — an empty region is the selection's problem, not the array's).  Regions are
+    placed relative to node 0 of the current grid so that they are never empty by construction."""
+    how = desc.get("how", "nn")
+    if how == "nn":
+        return target.subset.nearest_neighbor(tuple(desc["center"]), k=desc["k"], element=desc["element"])
+    lon0, lat0 = float(g.node_lon.values[0]), float(g.node_lat.values[0])
+    if how == "circle":
+        return target.subset.bounding_circle((lon0, lat0), desc.get("r", 50.0), element=desc["element"])
+    if how == "box":
+        return target.subset.bounding_box((-179.5, 179.5), (max(-90.0, lat0 - 50.0), min(90.0, lat0 + 50.0)),
+                                          element=desc["element"])
+    if how == "const_lat":
+        lat = float(np.median(g.node_lat.values)) + desc.get("dlat", 0.5)
+        return target.cross_section.constant_latitude(lat)
+    raise KeyError(how)
+
+
 def apply_ux(desc, u, world):
     m = desc["m"]
     if m == "ux_isel":
         idx = resolve_idx(desc, u)
         return u.isel(**{desc["dim"]: (np.array(idx) if desc.get("as_array") else idx)})
     if m == "ux_subset":
-        return u.subset.nearest_neighbor(tuple(desc["center"]), k=desc["k"], element=desc["element"])
+        return subset_call(desc, u.uxgrid, u)
     if m == "integrate":
         return u.integrate()
     if m == "gradient":
@@ -499,9 +524,10 @@ def apply_ux(desc, u, world):
         return getattr(u, "topological_" + desc["f"])(destination=desc["dest"])
     if m == "remap":
         g2 = world.grids[desc["grid"]]
+        ct = desc.get("coord", "spherical")
         if desc["how"] == "nn":
-            return u.remap.nearest_neighbor(g2, remap_to=desc["to"])
-        return u.remap.inverse_distance_weighted(g2, remap_to=desc["to"], k=desc.get("k", 2))
+            return u.remap.nearest_neighbor(g2, remap_to=desc["to"], coord_type=ct)
+        return u.remap.inverse_distance_weighted(g2, remap_to=desc["to"], coord_type=ct, k=desc.get("k", 2))
     if m == "get_dual":
         return u.get_dual()
     raise KeyError(m)
@@ -532,7 +558,8 @@ def method_name(desc):
     if m == "ux_isel":
         return "grid-isel"
     if m == "ux_subset":
-        return "subset"
+        return {"nn": "subset", "circle": "subset.bounding_circle", "box": "subset.bounding_box",
+                "const_lat": "cross_section.constant_latitude"}[desc.get("how", "nn")]
     if m == "topo":
         return "topological_agg"
     return m
@@ -577,22 +604,29 @@ def model_op(desc, pre_dims, post_dims, extra):
         return f"18 {COPY_APIS.index(desc['how'])} {1 if extra.get('fresh') else 0}"
     if m == "expand_dims":
         return f"17 {dim_code(desc['dim']) - 3} {1 if desc.get('last') else 0}"
-    if m in ("ux_isel", "ux_subset"):
+    # uxarray's own calls go through the Lean table `UxdaAlgebra.UxCall` (opcode 19 + call code, see `C10.uxcalls`)
+    if m == "ux_isel":
         c = extra.get("counts", (0, 0, 0))
-        return f"10 {c[0]} {c[1]} {c[2]}"
+        return f"19 6 {GRID_DIMS[desc['dim']]} {c[0]} {c[1]} {c[2]}"
+    if m == "ux_subset":
+        c = extra.get("counts", (0, 0, 0))
+        how = desc.get("how", "nn")
+        if how == "const_lat":
+            return f"19 10 {c[0]} {c[1]} {c[2]}"
+        return f"19 {dict(nn=7, circle=8, box=9)[how]} {GRID_DIMS[ELEMENT_DIM[desc['element']]]} {c[0]} {c[1]} {c[2]}"
     if m == "integrate":
-        return "11"
+        return "19 5"
     if m == "gradient":
-        return "12"
+        return "19 3"
     if m == "difference":
-        return "13"
+        return "19 4"
     if m == "topo":
-        return f"14 {dim_code('n_' + desc['dest'])}"
+        return f"19 2 {AGG_NAMES.index(desc['f'])} {GRID_DIMS['n_' + desc['dest']]}"
     if m == "remap":
-        return f"15 {desc['grid']} {dim_code(REMAP_TO[desc['to']])}"
+        return f"19 {0 if desc['how'] == 'nn' else 1} {desc['grid']} {GRID_DIMS[REMAP_TO[desc['to']]]}"
     if m == "get_dual":
         c = extra.get("counts", (0, 0, 0))
-        return f"16 {1 if extra.get('closed') else 0} {c[0]} {c[1]} {c[2]}"
+        return f"19 11 {1 if extra.get('closed') else 0} {c[0]} {c[1]} {c[2]}"
     raise KeyError(m)
 
 
@@ -701,18 +735,20 @@ def run_program(env, inp, out, tag="gen", chooser=None, depth=0):
     done = []
     fixed = iter(inp.get("program") or [])
     tries = 0
+    grown = 0
     while True:
-        if chooser is None:
-            desc = next(fixed, None)
-            if desc is None:
+        desc = next(fixed, None)
+        if desc is None:
+            if chooser is None:
                 break
-        else:
-            if steps >= depth or tries >= 3 * depth + 6:
+            # the fixed part is over: grow the program against the current state
+            if grown >= depth or tries >= 3 * depth + 6:
                 break
             tries += 1
             desc = chooser(t, state, world)
             if desc is None:
                 break
+            grown += 1
         m = desc["m"]
         name = method_name(desc)
         is_ux = m in UX_OPS
@@ -728,6 +764,13 @@ def run_program(env, inp, out, tag="gen", chooser=None, depth=0):
                 out["skipped"].append((name, type(e).__name__))
                 continue
             if not isinstance(t_next, xr.DataArray):
+                continue
+        if m == "ux_subset" and desc.get("how", "nn") != "nn" and cur_grid is not None:
+            # is the SELECTION defined on this grid (non-empty region / a latitude that meets faces)?
+            try:
+                subset_call(desc, cur_grid, cur_grid)
+            except Exception as e:
+                out["skipped"].append((name + "[grid-level selection undefined]", type(e).__name__))
                 continue
         # ---- the implementation
         err = None
@@ -894,6 +937,14 @@ def run_program(env, inp, out, tag="gen", chooser=None, depth=0):
                     sig = f"C10/op={name}/dims-differ-from-subgrid"
                     what = (f"{name} on a grid dimension of an array with dims {pre_dims}: the result has dims {post['dims']} but "
                             f"is attached to a sub-grid with counts {post['heap'][post['grid']][0]}")
+                elif is_ux and m != "get_dual":
+                    kw = (f"/how={desc['how']}/remap_to={desc['to']}" if m == "remap" else
+                          f"/agg={desc['f']}/destination={desc['dest']}" if m == "topo" else "")
+                    sig = f"C10/op={name}{kw}/dims-differ-from-attached-grid"
+                    bad = [(dd, n) for dd, n in post["dims"] if dd in GRID_DIMS and n != post["heap"][post["grid"]][0][GRID_DIMS[dd]]]
+                    what = (f"{name}{kw.replace('/', ' ')} returns dims {post['dims']} attached to a grid with (n_node, n_edge, n_face) = "
+                            f"{post['heap'][post['grid']][0]}: dimension(s) {bad} do not have the attached grid's count for the element "
+                            "kind they are NAMED after")
                 elif m == "get_dual":
                     sig = "C10/op=get_dual/nodes-with-fewer-than-3-faces/dims-differ-from-dual-grid"
                     what = ("get_dual of a mesh with nodes that have fewer than 3 faces (every partial mesh): the data keep their "
@@ -1138,6 +1189,9 @@ def candidates(rng, t, state, world_counts, closed, derived, heap_n):
                     idx = sorted(rng.sample(range(n), rng.randint(1, min(n, 6))))
                     arr = rng.random() < 0.5
                 out.append(dict(m="ux_isel", dim=dim, idx=idx, as_array=arr))
+            if not derived[g]:
+                out.append(dict(m="ux_subset", how=rng.choice(["circle", "box", "const_lat"]),
+                                element=rng.choice(list(ELEMENT_DIM))))
             if True:
                 out.append(dict(m="ux_subset", center=[rng.choice([-20.0, 0.0, 35.0, 150.0]), rng.choice([-30.0, 0.0, 25.0, 60.0])],
                                 k=rng.randint(1, min(4, cnt[2])), element=rng.choice(["nodes", "face centers", "edge centers"])))
@@ -1147,12 +1201,13 @@ def candidates(rng, t, state, world_counts, closed, derived, heap_n):
                 out += [dict(m="integrate"), dict(m="gradient", normalize=rng.random() < 0.3), dict(m="difference")] * 2
             if c == "n_node":
                 out += [dict(m="difference"),
-                        dict(m="topo", f=rng.choice(["mean", "max", "min", "sum"]), dest=rng.choice(["face", "edge"]))] * 2
+                        dict(m="topo", f=rng.choice(AGG_NAMES), dest=rng.choice(["face", "edge"])),
+                        dict(m="topo", f=rng.choice(AGG_NAMES), dest=rng.choice(["face", "edge"]))]
             if not gcoord:
                 for _ in range(2):
                     g2 = rng.randrange(heap_n)
                     out.append(dict(m="remap", how=rng.choice(["nn", "nn", "idw"]) if kind in "fiu" else "nn", grid=g2,
-                                    to=rng.choice(list(REMAP_TO)), k=2))
+                                    to=rng.choice(list(REMAP_TO)), k=2, coord=rng.choice(["spherical", "cartesian"])))
             out += [dict(m="get_dual")] * 2
     return out
 
@@ -1170,8 +1225,200 @@ def choose_meshes(rng):
         part = part.split_some(rng)
     mixed = meshes.hull(rng.choice([10, 12, 14]), rng).merge_some(rng)
     ms = [closed, part, mixed]
-    # distinct element counts within a grid keep "which centring" unambiguous for size-dispatching code (C06/C12)
+    # distinct element counts within every grid: a dimension named for one kind of element but carrying another kind's
+    # count can then never pass for consistent (and "which centring" stays unambiguous for size-dispatching code)
+    for _ in range(20):
+        bad = [i for i, m in enumerate(ms) if len(set(mesh_counts(m))) < 3]
+        if not bad:
+            break
+        for i in bad:
+            ms[i] = (meshes.prism(rng.choice([5, 6, 7, 8])) if i == 0 else
+                     meshes.patch(rng.choice([2, 3, 4]), rng.choice([2, 3]), lon0=rng.choice([-30, 150, -5]), lat0=rng.choice([-20, 40]))
+                     if i == 1 else meshes.hull(rng.choice([10, 12, 14, 16]), rng).merge_some(rng))
     return ms
+
+
+def mesh_counts(m):
+    edges = set()
+    for f in m.faces:
+        for a, b in zip(f, f[1:] + f[:1]):
+            edges.add((min(a, b), max(a, b)))
+    return (m.n_node, len(edges), m.n_face)
+
+
+# ----------------------------------------------------------------------------------------------
+# constructor sites: a mechanical enumeration of the code, compared with the table below on every run
+# ----------------------------------------------------------------------------------------------
+
+SITE_DIRS = ["core", "remap", "subset", "cross_sections"]
+SITE_CALLS = {"UxDataArray", "UxDataset", "_slice_from_grid", "_uxda_grid_aggregate", "_construct_direct", "cls"}
+
+_DS = "UxDataset cannot be constructed under the installed xarray (Dataset(Dataset) is rejected): not exercisable here"
+# site -> the harness operations that go through it (each is generated with every value of its kind-selecting keywords
+# by `constructors()`), or the reason it cannot be exercised.  `call` names the entry of the Lean table UxdaAlgebra.UxCall.
+SITES = {
+    "core/dataarray.py:UxDataArray._construct_direct": dict(skip="override point; no xarray 2026.7 code path calls it on a DataArray subclass (wrapped by the tracer, path `classCtor`)"),
+    "core/dataarray.py:UxDataArray._replace": dict(ops=["every xarray operation of path `replace` / `copy`"], seen="_replace"),
+    "core/dataarray.py:UxDataArray.to_dataset": dict(skip=_DS + " (probed once per run, see `to_dataset_probe`)"),
+    "core/dataarray.py:UxDataArray.integrate": dict(ops=["integrate"], call="integrate", seen="integrate"),
+    "core/dataarray.py:UxDataArray.gradient": dict(ops=["gradient"], call="gradient", seen="gradient"),
+    "core/dataarray.py:UxDataArray.difference": dict(ops=["difference"], call="difference", seen="difference"),
+    "core/dataarray.py:UxDataArray.isel": dict(ops=["ux_isel"], call="isel", seen="_slice_from_grid"),
+    "core/dataarray.py:UxDataArray._slice_from_grid": dict(ops=["ux_isel", "ux_subset"], call="isel", seen="_slice_from_grid"),
+    "core/dataarray.py:UxDataArray.get_dual": dict(ops=["get_dual"], call="get_dual", seen="get_dual"),
+    "core/aggregation.py:_node_to_face_aggregation": dict(ops=["topo dest=face"], call="topological_*", seen="_node_to_face_aggregation"),
+    "core/aggregation.py:_node_to_edge_aggregation": dict(ops=["topo dest=edge"], call="topological_*", seen="_node_to_edge_aggregation"),
+    "remap/nearest_neighbor.py:_nearest_neighbor_uxda": dict(ops=["remap nn"], call="remap.nearest_neighbor", seen="_nearest_neighbor_uxda"),
+    "remap/inverse_distance_weighted.py:_inverse_distance_weighted_remap_uxda": dict(ops=["remap idw"], call="remap.inverse_distance_weighted", seen="_inverse_distance_weighted_remap_uxda"),
+    "subset/dataarray_accessor.py:DataArraySubsetAccessor.nearest_neighbor": dict(ops=["ux_subset nn"], call="subset.nearest_neighbor", seen="_slice_from_grid"),
+    "subset/dataarray_accessor.py:DataArraySubsetAccessor.bounding_circle": dict(ops=["ux_subset circle"], call="subset.bounding_circle", seen="_slice_from_grid"),
+    "subset/dataarray_accessor.py:DataArraySubsetAccessor.bounding_box": dict(ops=["ux_subset box"], call="subset.bounding_box", seen="_slice_from_grid"),
+    "cross_sections/dataarray_accessor.py:UxDataArrayCrossSectionAccessor.constant_latitude": dict(ops=["ux_subset const_lat"], call="cross_section.constant_latitude", seen="_slice_from_grid"),
+    "cross_sections/grid_accessor.py:GridCrossSectionAccessor.constant_latitude": dict(skip="Grid.isel: returns a Grid, not a UxDataArray"),
+    "subset/grid_accessor.py:GridSubsetAccessor._index_grid": dict(skip="Grid.isel: returns a Grid, not a UxDataArray"),
+    "subset/grid_accessor.py:GridSubsetAccessor.bounding_box": dict(skip="Grid.isel: returns a Grid, not a UxDataArray"),
+    "core/api.py:open_dataset": dict(skip=_DS),
+    "core/api.py:open_mfdataset": dict(skip=_DS),
+    "core/dataset.py:UxDataset.__getitem__": dict(skip=_DS),
+    "core/dataset.py:UxDataset._calculate_binary_op": dict(skip=_DS),
+    "core/dataset.py:UxDataset._construct_dataarray": dict(skip=_DS),
+    "core/dataset.py:UxDataset._construct_direct": dict(skip=_DS),
+    "core/dataset.py:UxDataset._replace": dict(skip=_DS),
+    "core/dataset.py:UxDataset.from_dataframe": dict(skip=_DS),
+    "core/dataset.py:UxDataset.from_dict": dict(skip=_DS),
+    "core/dataset.py:UxDataset.to_array": dict(skip=_DS),
+    "core/dataset.py:UxDataset.get_dual": dict(skip=_DS),
+    "remap/nearest_neighbor.py:_nearest_neighbor_uxds": dict(skip=_DS),
+    "remap/inverse_distance_weighted.py:_inverse_distance_weighted_remap_uxds": dict(skip=_DS),
+}
+for _agg in AGG_NAMES:
+    SITES[f"core/dataarray.py:UxDataArray.topological_{_agg}"] = dict(ops=[f"topo f={_agg}"], call="topological_*",
+                                                                      seen="_node_to_face_aggregation")
+
+
+def enumerate_sites(root):
+    """every function of uxarray/{core,remap,subset,cross_sections} whose body constructs a UxDataArray / UxDataset, calls
+    `_slice_from_grid` / `_uxda_grid_aggregate` / `_construct_direct`, instantiates `cls(...)` inside one of the two classes,
+    or calls `.isel(n_node=|n_edge=|n_face=)` — found with `ast` in the tree under test"""
+    import ast
+
+    def cname(f):
+        return f.id if isinstance(f, ast.Name) else f.attr if isinstance(f, ast.Attribute) else None
+
+    found = {}
+    for d in SITE_DIRS:
+        base = root / "uxarray" / d
+        if not base.is_dir():
+            continue
+        for path in sorted(base.rglob("*.py")):
+            try:
+                tree = ast.parse(path.read_text())
+            except Exception:
+                continue
+            rel = str(path.relative_to(root / "uxarray"))
+
+            def walk(node, stack):
+                for ch in ast.iter_child_nodes(node):
+                    if isinstance(ch, ast.ClassDef):
+                        walk(ch, stack + [ch.name])
+                    elif isinstance(ch, (ast.FunctionDef, ast.AsyncFunctionDef)):
+                        hits = set()
+                        for c in ast.walk(ch):
+                            if isinstance(c, ast.Call):
+                                nm = cname(c.func)
+                                if nm in SITE_CALLS and (nm != "cls" or (stack and stack[0] in ("UxDataArray", "UxDataset"))):
+                                    hits.add(nm)
+                                if nm == "isel" and any(k.arg in GRID_DIMS for k in c.keywords):
+                                    hits.add("isel(grid-dim)")
+                        if hits:
+                            found[f"{rel}:{'.'.join(stack + [ch.name])}"] = sorted(hits)
+                        walk(ch, stack + [ch.name])
+
+            walk(tree, [])
+    return found
+
+
+def check_sites(env, out):
+    ctx = env.ctx
+    found = enumerate_sites(common.REPO)
+    unlisted = sorted(k for k in found if k not in SITES)
+    gone = sorted(k for k in SITES if k not in found)
+    names = ctx.driver.ask("C10.uxcalls").split()
+    bad_calls = sorted({v["call"] for v in SITES.values() if v.get("call") and v["call"] not in names})
+    ctx.extra["constructor_sites_found"] = found
+    ctx.extra["constructor_sites_table"] = {k: (v.get("ops") or ("not exercised: " + v["skip"])) for k, v in SITES.items()}
+    ctx.extra["lean_uxcall_table"] = names
+    for k in unlisted:
+        # a constructor site the model does not know: the correspondence is broken until it is listed (and exercised)
+        out["mismatches"].append(("C10/unlisted-constructor-site", dict(site=k, constructs=found[k]),
+                                  "found in the source of the tree under test", "not in harness/c10.py SITES / UxdaAlgebra.UxCall"))
+    for c in bad_calls:
+        out["mismatches"].append(("C10/site-table-names-unknown-lean-call", dict(call=c), None, names))
+    if gone:
+        ctx.notes.append(f"constructor sites of the table no longer found in the source (renamed / removed): {gone}")
+    return found
+
+
+def sites_exercised(env):
+    """which listed sites built at least one result during this run (from the tracer's constructor callers)"""
+    ctx = env.ctx
+    never = sorted(k for k, v in SITES.items() if v.get("seen") and v["seen"] not in env.tr.callers)
+    ctx.extra["constructor_callers_seen"] = sorted(env.tr.callers)
+    if never:
+        ctx.notes.append(f"listed constructor sites that built no result in this run: {never}")
+        ctx.hit("constructor-site-not-exercised", len(never))
+
+
+def to_dataset_probe(env, u):
+    ctx = env.ctx
+    try:
+        ds = u.to_dataset(name="v")
+    except Exception as e:
+        ctx.extra["to_dataset_probe"] = f"unusable: {type(e).__name__}: {str(e)[:120]}"
+        return
+    ok = type(ds).__name__ == "UxDataset" and getattr(ds, "uxgrid", None) is u.uxgrid
+    ctx.extra["to_dataset_probe"] = "UxDataset on the same grid" if ok else f"{type(ds).__name__}, same grid: {getattr(ds, 'uxgrid', None) is u.uxgrid}"
+    if not ok:
+        ctx.fail("C10/op=to_dataset/result", "to_dataset() does not return a UxDataset attached to the same grid",
+                 dict(probe="to_dataset"), dict(type=type(ds).__name__), None, ["is_uxdataarray"])
+
+
+def constructors(env, rng, base, wc):
+    """EVERY public call that returns a UxDataArray, with every value of its kind-selecting keyword arguments, from every
+    source kind it accepts, on a destination grid different from the source — each followed (in `run`) by a random program
+    of xarray operations, so that an inconsistent attachment is also seen to be carried along"""
+    progs = []
+    for gid in (0, 1):
+        others = [g for g in (0, 1, 2) if g != gid]
+        for centre in ("n_face", "n_node", "n_edge"):
+            for lead in ([], [["t", 2]]):
+                sp = gen_start(rng, wc, gid, centre=centre, dtype=rng.choice(["float64", "float32", "int64"]), gcoord=False,
+                               lead=lead)
+                sp["coords"] = {"t": ("t", [10, 20])} if lead and rng.random() < 0.5 else {}
+                ops = []
+                i = 0
+                for how in ("nn", "idw"):
+                    for to in REMAP_TO:
+                        for coord in ("spherical", "cartesian"):
+                            ops.append(dict(m="remap", how=how, to=to, coord=coord, grid=others[i % 2], k=2))
+                            i += 1
+                if centre == "n_node":
+                    ops += [dict(m="topo", f=f, dest=dst) for f in AGG_NAMES for dst in ("face", "edge")]
+                    ops += [dict(m="difference")]
+                if centre == "n_face":
+                    ops += [dict(m="gradient", normalize=False), dict(m="gradient", normalize=True), dict(m="difference"),
+                            dict(m="integrate")]
+                for dim in GRID_DIMS:
+                    n = wc[gid][GRID_DIMS[dim]]
+                    ops.append(dict(m="ux_isel", dim=dim, idx=[n - 1, 1]))
+                for el in ELEMENT_DIM:
+                    ops += [dict(m="ux_subset", how="nn", center=[10.0, 5.0], k=2, element=el),
+                            dict(m="ux_subset", how="circle", element=el), dict(m="ux_subset", how="box", element=el)]
+                ops += [dict(m="ux_subset", how="const_lat"), dict(m="get_dual")]
+                for op in ops:
+                    progs.append(dict(base, start=sp, program=[op]))
+    return progs
+
 
 
 def flush(ctx, out):
@@ -1183,7 +1430,8 @@ def flush(ctx, out):
         ctx.fail(f["signature"], f["what"], strip(inp), f["impl"], f["model"], f["clauses"])
     for rel, inp, impl, model in out["mismatches"]:
         inp = dict(inp)
-        inp["program"] = clean_program(inp["program"])
+        if "program" in inp:
+            inp["program"] = clean_program(inp["program"])
         ctx.mismatch(rel, strip(inp), impl, model)
     out["failures"].clear()
     out["mismatches"].clear()
@@ -1220,12 +1468,14 @@ def minimise(env, out):
     out["failures"] += extra
 
 
-def make_chooser(env, rng, nbase):
+def make_chooser(env, rng, nbase, xarray_only=False):
     xr = env.xr
 
     def chooser(t, state, world):
         wc = [c for c, _ in world.heap()]
         cands = candidates(rng, t, state, wc, world.closed, world.derived, nbase)
+        if xarray_only:
+            cands = [c for c in cands if c["m"] not in UX_OPS]
         rng.shuffle(cands)
         for desc in cands[:12]:
             if desc["m"] in UX_OPS:
@@ -1366,6 +1616,11 @@ def run(ctx):
                 "(xarray: arithmetic, NumPy ufuncs, where/clip/fillna/astype, 10 ways of indexing on grid and non-grid dims, "
                 "reductions, cumulative, rolling, transpose, rename, assign_coords, concat, 5 ways of copying; uxarray: isel on "
                 "n_node/n_edge/n_face, integrate, gradient, difference, topological_*, remap nn/idw onto any of the grids, get_dual); "
+                "+ [constructors: EVERY public call returning a UxDataArray × every value of its kind-selecting keywords (remap nn/idw × "
+                "remap_to × coord_type onto a DIFFERENT grid, 10 topological_* × destination, gradient, difference, integrate, isel × "
+                "dim, subset nn/circle/box × element, cross_section.constant_latitude, get_dual) from every source kind, each followed "
+                "by a random program of xarray ops]; all grids have n_node ≠ n_edge ≠ n_face; the constructor sites found by an ast walk "
+                "of the tree under test are compared with the table (harness SITES / Lean UxCall) — an unlisted site is a mismatch; "
                 "every prefix is judged; distinct = distinct (method, variant, dtype, pre-dims, model op, on-derived-grid)")
     ctx.assumptions = [
         "which constructor path a public xarray method takes is OBSERVED per run (table in the evidence), not proved",
@@ -1399,6 +1654,7 @@ def run(ctx):
                 j = json.loads(f.read_text())
                 run_program(env, j["input"], out, tag="corpus")
                 ctx.hit("corpus")
+        check_sites(env, out)
         rounds = ctx.n(1, 6)
         for rnd in range(rounds):
             ms = choose_meshes(rng)
@@ -1409,10 +1665,18 @@ def run(ctx):
             # programs share the WARM grids of the round; `cold` programs build their own fresh grids
             base = dict(grids=[mesh_to_json(m) for m in ms], _grids_cache=grids, warm=True)
             cold = dict(grids=base["grids"], warm=False)
+            if rnd == 0:
+                w0_ = World(env.ux, env.xr, grids, closed)
+                to_dataset_probe(env, make_start(env.ux, env.xr, w0_, gen_start(rng, wc, 0, centre="n_face", nlead=1,
+                                                                                 dtype="float64", gcoord=False))[0])
             for i, m in enumerate(ms):
                 ctx.hit(f"grid:{m.kind or 'mesh'}:{'closed' if m.closed else 'partial'}")
             for inp in directed(env, rng, base, wc, closed):
                 run_program(env, inp, out, tag="directed")
+            chooser = make_chooser(env, rng, 3, xarray_only=True)
+            for inp in constructors(env, rng, base, wc):
+                # the call itself, then a random program of xarray operations on its result
+                run_program(env, inp, out, tag="constructors", chooser=chooser, depth=rng.randint(1, 3))
             for inp in layouts(env, rng, base, wc):
                 run_program(env, inp, out, tag="layout")
             for inp in copy_chains(env, rng, base, wc):
@@ -1440,6 +1704,7 @@ def run(ctx):
             if grew:
                 ctx.notes.append(f"shared warm grids gained variables during the round (replays may see a colder grid): {grew}")
                 ctx.hit("warm-state-not-a-fixed-point")
+        sites_exercised(env)
         # ---- the observed table vs the table the as-is theorems are about
         asis = common.Tok(ctx.driver.ask("C10.asis")).ints()
         obs = {k: env.table.get(k) for k in KINDS}
